@@ -12,7 +12,7 @@ import sys
 import numpy as np
 import xarray as xr
 
-from .. import builders, env, ref
+from .. import builders, env, ref, sequences
 from ..runner import LibraryRaised, Recorder, lib
 
 PROPERTY = 'C17'
@@ -29,6 +29,7 @@ RULE = (
     "bitwise equal variables, equal time instants, and the raw file carries _FillValue exactly on the "
     "variables that had one.  Non-trivial: negative, single-digit-hour or fractional-hour offsets."
     ' Also: integer time encodings whose unit does not divide the time steps; the unit strings again in child interpreters whose local time zone (TZ) is AEST-10, GMT0BST with summer time, PST8PDT; datasets with a scalar forecast reference time next to the time axis.'
+    " Also (operation sequences, mc/sequences.py): for 8 base datasets and every sequence `first [middle] query` over 36 operations (queries, in-place edits a user makes, transforms whose result is used next; quick length 2, thorough length 3) ending in one of this property's own queries, the answer on the one used object equals the answer on a never-used rebuild. Second phase: the first case of every distinct outcome and kind (thorough: every case, for expensive checks every kind) again with debug logging enabled, under numpy.errstate(all='ignore'), and in python -O child interpreters."
 )
 LEVEL_TEXT = ("every (period, epoch, 15-minute UTC offset, spelling) combination of the stated product through "
               "format_time_units_for_ems, with an independent parser and cftime as consumer; save/reopen round trips "
@@ -75,7 +76,7 @@ def file_specs(tier):
     return specs
 
 
-def cases(tier):
+def _cases_first_call(tier):
     periods = PERIODS if tier == 'thorough' else ('days', 'seconds')
     epochs = EPOCHS if tier == 'thorough' else EPOCHS[:4]
     out = [{'part': 'units', 'period': p, 'epoch': list(e)} for p in periods for e in epochs]
@@ -92,6 +93,11 @@ def cases(tier):
                 out.append({'part': 'file', 'spec': spec, 'regime': regime, 'units': units, 'time_dtype': 'int32'})
             # a second, smaller datetime variable next to the time axis (a forecast reference time)
             out.append({'part': 'file', 'spec': spec, 'regime': regime, 'units': FILE_UNITS[0], 'reference_time': True})
+            # a time axis with no records yet, a single record, and what isel(time=0) leaves: a scalar time coordinate
+            for shape in ('empty', 'single', 'scalar'):
+                out.append({'part': 'file', 'spec': spec, 'regime': regime, 'units': FILE_UNITS[1], 'time_shape': shape})
+            # the period of the units given at save time (Dataset.to_netcdf's encoding argument) rather than by the source
+            out.append({'part': 'file', 'spec': spec, 'regime': regime, 'units': FILE_UNITS[0], 'encoding_argument': 'minutes'})
     return out
 
 
@@ -193,7 +199,25 @@ def run_file(case, rec):
             ds['forecast_reference_time'].encoding.update({'units': 'hours since 2021-01-01 00:00:00', 'dtype': np.dtype('float64')})
         if case['regime'] == 'file':
             ds = builders.reopen(ds, tmp, 'source.nc')
+        shape = case.get('time_shape')
+        if shape:
+            rec.nontrivial(('time-shape', shape))
+            selector = {'empty': slice(0, 0), 'single': slice(0, 1), 'scalar': 0}[shape]
+            ds = ds.isel({truth.time_dim: selector})
         want_fill = fill_expectation(ds)
+        save_kwargs = {}
+        if case.get('encoding_argument'):
+            rec.nontrivial('encoding-argument')
+            epoch_text = case['units'].split(' since ', 1)[1]
+            save_kwargs['encoding'] = {truth.time_name: {'units': f"{case['encoding_argument']} since {epoch_text}", 'dtype': 'float64'}}
+        try:
+            # what xarray itself cannot write (e.g. the source file's chunk sizes on an axis that is now empty) is no
+            # business of the save method
+            ds.to_netcdf(os.path.join(tmp, 'plain.nc'), **save_kwargs)
+        except Exception:  # noqa: BLE001
+            rec.step()
+            rec.outcome([spec['family'], case['regime'], 'not-writable-by-xarray'])
+            return
         try:
             convention = lib(lambda: ds.ems)
             base_polys = lib(lambda: list(convention.polygons))
@@ -202,7 +226,7 @@ def run_file(case, rec):
             return
         path = os.path.join(tmp, 'saved.nc')
         try:
-            lib(convention.to_netcdf, path)
+            lib(convention.to_netcdf, path, **save_kwargs)
         except LibraryRaised as err:
             which = 'save-raised-time-units' if 'reference time' in str(err) or 'units' in str(err).lower() else 'save-raised'
             rec.check(False, f"{fp}/{which}", f"ems.to_netcdf with units {case['units']!r} raised", 'file', str(err))
@@ -210,7 +234,12 @@ def run_file(case, rec):
         with netCDF4.Dataset(path) as nc:
             stored_units = nc.variables[truth.time_name].getncattr('units')
             rec.check(OUTPUT_RE.match(stored_units) is not None, f"{fp}/stored-units-form", "time units in the file", OUTPUT_RE.pattern, stored_units)
+            if case.get('encoding_argument'):
+                rec.check(stored_units.startswith(case['encoding_argument'] + ' since '), f"{fp}/period-not-the-one-written",
+                          "period of the stored units", case['encoding_argument'], stored_units)
             for name, had in want_fill.items():
+                if case.get('encoding_argument') and name == truth.time_name:
+                    continue    # the caller's encoding replaces the variable's own, fill value included: theirs to say
                 if name not in nc.variables:
                     rec.check(False, f"{fp}/variable-lost", f"{name} missing from the file", name, sorted(nc.variables))
                     continue
@@ -275,7 +304,7 @@ def run_in_time_zone(case, rec):
     rec.outcome(['units-tz', case['tz'], case['epoch']])
 
 
-def run_case(case):
+def _run_case_first_call(case):
     rec = Recorder()
     if case.get('tz') and not os.environ.get('VERIF_C17_CHILD'):
         run_in_time_zone(case, rec)
@@ -283,6 +312,19 @@ def run_case(case):
     {'units': run_units, 'file': run_file}[case['part']](case, rec)
     return rec.result()
 
+
+
+def cases(tier):
+    # first calls on freshly built datasets, then operation sequences on one object (mc/sequences.py)
+    return _cases_first_call(tier) + sequences.cases_for(PROPERTY, tier)
+
+
+def run_case(case):
+    if case.get('part') == 'sequence':
+        rec = Recorder()
+        sequences.run_case(PROPERTY, case, rec)
+        return rec.result()
+    return _run_case_first_call(case)
 
 if __name__ == '__main__':
     import time
